@@ -4,3 +4,4 @@ import Properties.C17
 import Properties.C07
 import Properties.C06
 import Properties.C08
+import Properties.C09
